@@ -70,6 +70,9 @@ pub enum Ending {
     Stays,
     HalfCloses,
     Closes,
+    /// never reads what the server sends and closes once the server is idle (a reply larger than
+    /// the socket buffer is then stuck half-written when the connection goes away)
+    ClosesUnread,
 }
 
 #[derive(Clone, Debug)]
@@ -80,11 +83,14 @@ pub struct RealSrv {
     pub endings: Vec<Ending>,
     /// fairness only: every client stays, everything is written before the server looks
     pub fairness: bool,
+    /// two clients: the first one as chosen from `bursts` / `endings`, the second one a plain call
+    /// and stays; the server first runs before the writes (for the expensive 300 KB messages)
+    pub paired: bool,
 }
 
 impl RealSrv {
     pub fn to_json(&self) -> Value {
-        json!({"real_server": true, "smol": self.smol, "max_clients": self.max_clients, "fairness": self.fairness,
+        json!({"real_server": true, "smol": self.smol, "max_clients": self.max_clients, "fairness": self.fairness, "paired": self.paired,
             "bursts": self.bursts.iter().map(|b| b.iter().map(|k| format!("{k:?}")).collect::<Vec<_>>()).collect::<Vec<_>>(),
             "endings": self.endings.iter().map(|e| format!("{e:?}")).collect::<Vec<_>>()})
     }
@@ -101,6 +107,7 @@ impl RealSrv {
             smol: v["smol"].as_bool()?,
             max_clients: v["max_clients"].as_u64()? as usize,
             fairness: v["fairness"].as_bool()?,
+            paired: v["paired"].as_bool().unwrap_or(false),
             bursts: v["bursts"].as_array()?.iter().map(|b| b.as_array().unwrap().iter().map(|x| k(x.as_str().unwrap_or("P"))).collect()).collect(),
             endings: v["endings"]
                 .as_array()?
@@ -108,6 +115,7 @@ impl RealSrv {
                 .map(|e| match e.as_str() {
                     Some("HalfCloses") => Ending::HalfCloses,
                     Some("Closes") => Ending::Closes,
+                    Some("ClosesUnread") => Ending::ClosesUnread,
                     _ => Ending::Stays,
                 })
                 .collect(),
@@ -124,10 +132,14 @@ struct Client {
     early: bool,
     out: Vec<u8>,
     ended: bool,
+    pending: Vec<u8>,
 }
 
 impl Client {
     fn drain(&mut self) {
+        if self.ending == Ending::ClosesUnread {
+            return;
+        }
         if let Some(s) = self.sock.as_mut() {
             let mut buf = [0u8; 65536];
             loop {
@@ -151,7 +163,7 @@ impl Client {
                     let _ = s.shutdown(std::net::Shutdown::Write);
                 }
             }
-            Ending::Closes => {
+            Ending::Closes | Ending::ClosesUnread => {
                 self.drain();
                 self.sock = None;
             }
@@ -193,18 +205,19 @@ impl RealSrv {
             }
         };
         let waker = Waker::from(std::sync::Arc::new(Flag));
-        let n = 1 + cx.choose(self.max_clients, "clients-1");
+        let n = if self.paired { 2 } else { 1 + cx.choose(self.max_clients, "clients-1") };
         let mut clients: Vec<Client> = Vec::new();
         for i in 0..n {
-            let kinds = self.bursts[cx.choose(self.bursts.len(), "burst")].clone();
-            let ending = if self.fairness { Ending::Stays } else { self.endings[cx.choose(self.endings.len(), "ending:stays|half-closes|closes")] };
+            let fixed = self.paired && i == 1;
+            let kinds = if fixed { vec![K::P] } else { self.bursts[cx.choose(self.bursts.len(), "burst")].clone() };
+            let ending = if self.fairness || fixed { Ending::Stays } else { self.endings[cx.choose(self.endings.len(), "ending:stays|half-closes|closes")] };
             let early = ending != Ending::Stays && cx.choose(2, "ends:after-the-server-went-idle|right-after-writing") == 1;
             let ids: Vec<u32> = (0..kinds.len()).map(|j| (i as u32 + 1) * 100 + j as u32).collect();
             let expected: Vec<Value> = kinds.iter().zip(&ids).filter_map(|(k, id)| call(*k, *id).1).collect();
-            clients.push(Client { sock: None, kinds, ids, expected, ending, early, out: vec![], ended: false });
+            clients.push(Client { sock: None, kinds, ids, expected, ending, early, out: vec![], ended: false, pending: vec![] });
         }
         // when the server first runs: before the clients connect / before they write / only at the end
-        let first_run = if self.fairness { 1 } else { cx.choose(3, "server-first-runs:before-connects|before-writes|after-everything") };
+        let first_run = if self.fairness || self.paired { 1 } else { cx.choose(3, "server-first-runs:before-connects|before-writes|after-everything") };
         let log_len = || shared.log.borrow().len();
         macro_rules! settle {
             () => {{
@@ -262,40 +275,67 @@ impl RealSrv {
                 bytes.extend_from_slice(&call(*k, *id).0);
             }
             cx.log(|| format!("client {i}: writes {:?} ({} bytes), then {:?}{}", c.kinds, bytes.len(), c.ending, if c.early { " at once" } else { "" }));
-            // (a burst larger than the socket buffer is written piecemeal while the server runs)
-            let mut off = 0;
-            let mut spins = 0;
-            while off < bytes.len() {
-                match c.sock.as_mut().unwrap().write(&bytes[off..]) {
-                    Ok(n) => off += n,
-                    Err(e) if e.kind() == std::io::ErrorKind::WouldBlock => {
-                        spins += 1;
-                        if spins > 100_000 {
-                            xplore::bug!("client write never completes");
+            c.pending = bytes;
+        }
+        // the clients write what they have (a burst larger than the socket buffers goes out piecemeal
+        // while the server runs and the others read); a write that makes no progress for a long time
+        // is stuck behind a client that does not read and is taken up again once that one has left
+        macro_rules! pump {
+            () => {{
+                let mut idle = 0;
+                while clients.iter().any(|c| !c.pending.is_empty() && c.sock.is_some()) && idle < 300 {
+                    let mut progress = false;
+                    for c in clients.iter_mut() {
+                        if !c.pending.is_empty() {
+                            if let Some(s) = c.sock.as_mut() {
+                                match s.write(&c.pending) {
+                                    Ok(n) if n > 0 => {
+                                        c.pending.drain(..n);
+                                        progress = true;
+                                    }
+                                    Ok(_) => {}
+                                    Err(e) if e.kind() == std::io::ErrorKind::WouldBlock => {}
+                                    Err(e) => xplore::bug!("client write: {e}"),
+                                }
+                            }
                         }
-                        if let Some(r) = &trt {
-                            r.block_on(async {
-                                tokio::task::yield_now().await;
-                                tokio::task::yield_now().await;
-                            });
-                        }
-                        let mut tcx = Context::from_waker(&waker);
-                        if let Poll::Ready(r) = fut.as_mut().poll(&mut tcx) {
-                            return Verdict::fail("server:run-returned", what(&format!("Server::run() completed with {r:?}")));
+                        if c.pending.is_empty() && c.early {
+                            c.end();
                         }
                     }
-                    Err(e) => xplore::bug!("client write: {e}"),
+                    if let Some(r) = &trt {
+                        r.block_on(async {
+                            tokio::task::yield_now().await;
+                            tokio::task::yield_now().await;
+                        });
+                    }
+                    let mut tcx = Context::from_waker(&waker);
+                    if let Poll::Ready(r) = fut.as_mut().poll(&mut tcx) {
+                        return Verdict::fail("server:run-returned", what(&format!("Server::run() completed with {r:?}")));
+                    }
+                    for c in clients.iter_mut() {
+                        c.drain();
+                    }
+                    idle = if progress { 0 } else { idle + 1 };
                 }
-            }
-            if c.early {
+            }};
+        }
+        pump!();
+        settle!();
+        for c in clients.iter_mut() {
+            if c.pending.is_empty() {
                 c.end();
             }
         }
+        pump!();
         settle!();
         for c in clients.iter_mut() {
             c.end();
         }
         settle!();
+        if let Some(c) = clients.iter().find(|c| !c.pending.is_empty() && c.ending != Ending::ClosesUnread && c.ending != Ending::Closes) {
+            return Verdict::fail("server:stopped-reading", what(&format!("a client could not get rid of the last {} bytes of its calls {:?}: the server does not read them although every client that did not read has left", c.pending.len(), c.kinds)));
+        }
         // judge
         let log: Vec<u32> = shared.log.borrow().iter().map(|h| h.id).collect();
         cx.log(|| format!("service handled {log:?}"));
@@ -334,7 +374,7 @@ impl RealSrv {
                         );
                     }
                 }
-                Ending::Closes => {
+                Ending::Closes | Ending::ClosesUnread => {
                     // replies have nowhere to go; what the service saw must be a prefix of what was
                     // sent, and the oneway calls in front of the first reply-owing call are all handled
                     if mine.len() > c.ids.len() || mine[..] != c.ids[..mine.len()] {
@@ -363,6 +403,9 @@ impl RealSrv {
                 seen.push(who);
             }
             cx.goal("several-clients-with-calls-ready-before-the-server-looks");
+        }
+        if clients.iter().any(|c| c.ending == Ending::ClosesUnread && c.kinds.contains(&K::G)) && clients.iter().any(|c| c.ending == Ending::Stays) {
+            cx.goal("client-leaves-a-large-reply-half-written-while-another-is-served");
         }
         if clients.iter().any(|c| c.ending == Ending::HalfCloses && c.early) {
             cx.goal("client-half-closes-before-the-server-reads");
